@@ -191,9 +191,10 @@ class Run:
         ev = {'property_id': self.prop, 'tier': self.tier, 'seed': self.seed, 'level': self.level,
               'coverage': cov, 'assumptions': self.assumptions, 'wall_s': round(time.time() - self.t0, 2),
               'violations': len(self.violations)}
-        os.makedirs(os.path.join(VERIF, 'evidence'), exist_ok=True)
-        with open(os.path.join(VERIF, 'evidence', self.prop + '.json'), 'w') as f:
-            json.dump(ev, f, indent=1, sort_keys=True, default=str)
+        if not os.environ.get('VERIF_NO_EVIDENCE'):      # sensitivity runs against a seeded worktree leave the evidence alone
+            os.makedirs(os.path.join(VERIF, 'evidence'), exist_ok=True)
+            with open(os.path.join(VERIF, 'evidence', self.prop + '.json'), 'w') as f:
+                json.dump(ev, f, indent=1, sort_keys=True, default=str)
         print(f'{self.prop} [{self.tier}] evaluations={self.evaluations} nontrivial={len(self.nontrivial)} '
               f'tlc_states={self.states} traces={self.traces_validated} known={sum(v["cases"] for v in self.known.values())} '
               f'violations={len(self.violations)} wall={ev["wall_s"]}s', flush=True)
